@@ -19,7 +19,7 @@ RULE = ('random files (as C02; float64 and int32 variables, masked and unmasked,
         'reduce_dim (mean/sum/min/max/std/var/median/ptp, masked and unmasked) and convolve_dim (valid/same/full, symmetric and '
         'asymmetric dyadic weights) against numpy / numpy.ma (and the Lean model for the modelled reducers); IOAPI files: '
         'applyAlongDimensions along LAY/TSTEP/ROW with reducers and callables incl. x[::2] and x[[0,-1]] (C10 model + level edges); '
-        'non-trivial = some variable has a named dimension and another does not, or two dimensions are named')
+        'non-trivial = some variable has a named dimension and another does not, or two dimensions are named; direct family (numpy on the arrays the source holds, no model): IOAPI files incl. length-1 dimensions with mean/sum/min/max/std/var and selections, reduce_dim on netCDF files on disk with whole fibres missing, applyAlongDimensions after float variables were derived from integer ones (eval, assignment)')
 ASSUMPTIONS = ['numpy / numpy.ma reductions and apply_along_axis behave as the per-fiber model says',
                'results are stored in the declared type of the variable (integer variables: C cast of the float result)',
                'float64 results are compared with the exact rational within 1e-12 relative']
